@@ -403,7 +403,7 @@ func (m *Machine) concretize(t *term.Term, what string) uint64 {
 		if r == smt.Unknown {
 			m.unknown++
 			m.S.Pop()
-			panic(pathAbort{"unsupported", "solver unknown while concretizing " + what + " at " + m.where()})
+			panic(pathAbort{"unsupported", fmt.Sprintf("solver unknown while concretizing %s (after %d values; decisions %v) at %s", what, len(vals), m.taken, m.where())})
 		}
 		if r == smt.Unsat {
 			break
